@@ -30,8 +30,9 @@ def generate(seed, tier):
     for n in ([1, 2, 5, 9, 17] if quick else [1, 2, 3, 4, 5, 7, 8, 9, 13, 16, 17, 20, 33]):
         for tn, tk in ([ty()] if quick else TYPES):
             add('C18|dyn1d|%s|N=%d' % (tk, n), 'VP_CASE("@KEY@", vp::c18::dyn1d<%s,%d>);' % (tn, n))
-    for dims in [(5, 9), (9, 17), (3, 4, 5)] + ([] if quick else [(2, 2), (8, 8), (2, 3, 2, 3)]):
-        for tn, tk in ([ty()] if quick else TYPES):
+    for dims in [(5, 9), (9, 17), (3, 4, 5), (2, 3, 8), (2, 3, 2, 3)] + ([] if quick else [(2, 2), (8, 8), (3, 2, 16)]):
+        # rank >= 3 is its own view class (tensor_views_nd.h): a float and an integer type in every run
+        for tn, tk in (([ty()] if len(dims) == 2 else [TYPES[seed % 2], TYPES[2 + seed % 2]]) if quick else TYPES):
             add('C18|dyn|%s|%s' % (tk, 'x'.join(map(str, dims))),
                 'static void @FN@(vp::Ctx& c) { vp::c18::DYN<%s, Fastor::Index<%s>>::run(c); }\nVP_CASE("@KEY@", @FN@);' % (tn, ','.join(map(str, dims))))
 
